@@ -174,7 +174,11 @@ def run(tier):
     loads_noexp = impl.loader(include_position=True, expand_includes=False)
     loads_exp = impl.loader(include_position=True, expand_includes=True)
 
-    def loads(text, hist=None):
+    loads_com = impl.loader(include_position=True, include_comments=True, expand_includes=False)
+
+    def loads(text, hist=None, with_comments=False):
+        if with_comments:
+            return loads_com(text)         # positions must not depend on the comment bookkeeping being on
         if hist is not None and any(a["a"] == "repeated" and a["key"] == "include" for a in hist):
             return loads_noexp(text)
         if any(ln.strip().lower().startswith("include") for ln in text.split("\n")):
@@ -201,7 +205,7 @@ def run(tier):
         text = surface.text_of(texts, seps)
         ck.count()
         try:
-            d = loads(text, h)
+            d = loads(text, h, with_comments=(j % 3 == 2))
         except Exception:  # noqa: BLE001
             continue            # C05 / C02
         if isinstance(d, list):
